@@ -39,10 +39,11 @@ def _no_close(s):
 def _line(maxlen):
     body = st.text(alphabet=_printable, max_size=maxlen)
     start = st.sampled_from(["#", "##", "[", "]", "[[", ":", "..", ".. note::", "  ", " ", "    ", "*", "@", "|", "#]", "# ",
-                             ":param x:", "-", ">>>", "\\", "é", "漢", "`", "::", "[[["])
+                             ":param x:", "-", ">>>", "\\", "é", "漢", "`", "::", "[[[", ":type <<P0>>:", ":param <<P0>>:", ":type <<P0>>: "])
     tail = st.sampled_from(["", "", " ", "   ", "#", "]", "\\"])
     return st.one_of(
         st.just(""),
+        st.sampled_from([":type <<P0>>:", ":param <<P0>>:", ":type <<P0>>: ", ":type <<P0>>: given", ":returns:"]),
         body,
         st.builds(lambda a, b, c: a + b + c, start, body, tail),
         st.builds(lambda a, b, c: a + b + c, start, body, tail),
@@ -70,7 +71,7 @@ def unicode_doc(max_lines, maxlen):
 def strategy(tier):
     ml, mx = (8, 60) if tier == "quick" else (30, 200)
     doc = unicode_doc(ml, mx)
-    p = G.Profile(doc=doc, p_doc_mostly=True, max_items=6 if tier == "quick" else 8, depth=3, dangling=False, dups=True,
+    p = G.Profile(doc=doc, p_doc_mostly=True, max_items=6 if tier == "quick" else 8, depth=3, dangling=False, dups=True, weights={"class": 2},
                   body_max=3, moddoc_indent=st.one_of(st.just(""), st.just(""), st.text(alphabet=" \t", max_size=12)))
     return st.fixed_dictionaries({"module": G.module(p), "layout": G.layout_choices(24)})
 
@@ -98,9 +99,11 @@ def check_text(module, text, res, tag=""):
         res.fail(tag + "entry-count", f"{len(ent_blocks)} top-level blocks for {len(exp)} expected entries")
         return
 
-    def check_doc(lines, marker, block_lines, level, what):
+    def check_doc(lines, marker, block_lines, level, what, extra=0):
         pref = " " * (3 * level)
         hits = [i for i, l in enumerate(block_lines) if marker in l]
+        if len(hits) == 1 + extra and extra:
+            hits = hits[:1]         # the doc text comes first; the other occurrence is the option's own help text
         if len(hits) != 1:
             res.fail(tag + "marker-in-own-block", f"{what}: marker {marker} occurs {len(hits)} times in its block")
             return
@@ -123,7 +126,7 @@ def check_text(module, text, res, tag=""):
                     sub = "line-trailing-space"
                 res.fail(tag + sub, f"{what}: line {off}: expected {pref + want!r} got {got!r}")
                 return
-        if text.count(marker) != 1:
+        if text.count(marker) != 1 + extra:
             res.fail(tag + "marker-elsewhere", f"{what}: marker {marker} occurs {text.count(marker)} times in the page")
 
     md = module.get("moddoc")
@@ -139,7 +142,8 @@ def check_text(module, text, res, tag=""):
         if d["marker"] not in by_marker:
             continue        # e.g. member of a class that the model does not show (cannot happen with defaults)
         idx, level = by_marker[d["marker"]]
-        check_doc(d["lines"], d["marker"], ent_blocks[idx][2], level, f"{it['k']} #{idx}")
+        extra = 1 if it["k"] == "option" and d["marker"] in it.get("help", "") else 0
+        check_doc(d["lines"], d["marker"], ent_blocks[idx][2], level, f"{it['k']} #{idx}", extra)
 
 
 def nontrivial(module):
@@ -173,8 +177,27 @@ def nontrivial(module):
     return nt, labels
 
 
+def prepare(module):
+    """'<<P0>>' in a doc line stands for the first parameter of the implementing definition (members) or 'x'."""
+    import copy
+    mod = copy.deepcopy(module)
+    for it, _, _ in G.walk(mod["items"]):
+        d = it.get("doc")
+        if d:
+            p0 = it["impl"]["params"][0] if it["k"] == "member" and it["impl"]["params"] else "x"
+            d["lines"] = [l.replace("<<P0>>", p0) for l in d["lines"]]
+        if it["k"] == "option" and d and d.get("marker") and int("".join(ch for ch in d["marker"] if ch.isdigit()) or 0) % 3 == 0:
+            # the help string repeats the doccomment word for word
+            words = " ".join(l.strip() for l in d["lines"] if l.strip())
+            if words and '"' not in words and "\\" not in words and "$" not in words and ";" not in words:
+                it["help"] = '"' + words + '"'
+    if mod.get("moddoc"):
+        mod["moddoc"]["lines"] = [l.replace("<<P0>>", "x") for l in mod["moddoc"]["lines"]]
+    return mod
+
+
 def evaluate(case):
-    module, layout = case["module"], case["layout"]
+    module, layout = prepare(case["module"]), case["layout"]
     res = Result()
     src = R.render(module, layout)
     nt, labels = nontrivial(module)
@@ -212,4 +235,4 @@ def evaluate(case):
 
 
 def describe(case):
-    return {"source": R.render(case["module"], case["layout"])}
+    return {"source": R.render(prepare(case["module"]), case["layout"])}
